@@ -106,6 +106,13 @@ def run_group(ctx, prop, lean=True):
                 _native(ctx, prop, fname, hook, failed_aux[0], aux=True)
     if lean and todo:
         run_lean(ctx)
+    # the other deductive tiers: effect contracts (frames / RNG typestate / exception escape) and UF-mode helper terms
+    if prop in ('C07', 'C18', 'C19', 'C20'):
+        from checks import proofs_effects
+        proofs_effects.run_effects(ctx, prop)
+    if prop == 'C17':
+        from checks import proofs_uf
+        proofs_uf.run_uf(ctx, prop)
     ctx.assume('pyvc: home-made symbolic executor over the real AST (DESIGN 2.1); python ints = mathematical ints (exact); '
                'declared parameter types; lemma schemas of pyvc/specs.py as proved in lemmas/*.lean (correspondence by name, lemmas/manifest.json)')
     ctx.assume('z3 5.1 (python API), /usr/bin/cvc5 and /usr/bin/z3 4.8 for z3 unknowns')
